@@ -172,6 +172,9 @@ func registerVerifExternals(sh *Shared) {
 
 func (i *interpreter) concretizeKey(k value) value {
 	if s, ok := k.(sym); ok {
+		if s.k == types.Bool {
+			return i.ex.Branch(s.t)
+		}
 		return concreteOfKind(s.k, i.ex.Concretize(s.t))
 	}
 	if containsSym(k) {
